@@ -15,7 +15,10 @@ ALG = ['poly', 'bilinear', 'const', 'delay', 'delay']
 def gen(ctx, float_data=False):
     rng = ctx.rng
     for _ in range(100):
-        c = st.gen_case(rng, ALG, max_depth=2, max_len=2, cap=12, ep=True, extra=3, opaque=float_data)
+        # the float oracle quantifies over EVERY pipeline: pre-processors (wrapped scalers, angle features) and the
+        # opaque feature kinds too, also inside the branches of a SplitPipeline; the exact correspondence stays algebraic
+        kinds = (ALG + ['sk', 'angle', 'rbf', 'kernel', 'sk']) if (float_data and rng.random() < 0.5) else ALG
+        c = st.gen_case(rng, kinds, max_depth=2, max_len=2, cap=12, ep=True, extra=3, opaque=float_data)
         if c['spec']['k'] != 'pipe':
             c['spec'] = {'k': 'pipe', 'ss': [c['spec']]}
         if st.degree(c['spec']) > 2:
@@ -33,6 +36,42 @@ def gen(ctx, float_data=False):
         c['form'] = rng.choice([1, 2])
         return c
     raise RuntimeError('no case')
+
+
+def systematic_float_cases(rng):
+    """pre-processors and opaque kinds at every nesting position (top level, inside the state / input branch of a
+    SplitPipeline, before and after algebraic stages), float data"""
+    pre = [{'k': 'sk', 'scaler': 'standard'}, {'k': 'sk', 'scaler': 'minmax'}, {'k': 'angle', 'feat': [0]},
+           {'k': 'sk', 'scaler': 'robust'}]
+    out = []
+    for P in pre:
+        for nu in (0, 1):
+            sk_in = [{'k': 'sk', 'scaler': 'maxabs'}] if nu else []
+            specs = [[P], [P, {'k': 'poly', 'order': 2, 'io': False}],
+                     [{'k': 'split', 'a': [P], 'b': sk_in}],
+                     [{'k': 'split', 'a': [P, {'k': 'poly', 'order': 2, 'io': False}], 'b': sk_in}],
+                     [{'k': 'split', 'a': [P, {'k': 'delay', 'dx': 1, 'du': 0}], 'b': ([{'k': 'delay', 'dx': 0, 'du': 1}] if nu else [])}],
+                     [{'k': 'split', 'a': [{'k': 'poly', 'order': 2, 'io': False}], 'b': sk_in}]]
+            for ss in specs:
+                if P['k'] == 'angle' and nu and any(x.get('k') == 'split' for x in ss) is False and len(ss) == 1:
+                    pass
+                nx = 2
+                spec = {'k': 'pipe', 'ss': ss}
+                eps, order = pipes.gen_layout(rng, pipes.loss(spec) + 2, extra=3, ep=True)
+                rows = [[l] + [round(rng.uniform(-2.0, 2.0), 3) * (1 if j < nx else 1) + (0 if P['k'] == 'angle' else 5 * (j == 0))
+                               for j in range(nx + nu)] for (l, t) in order]
+                c = {'spec': spec, 'nx': nx, 'nu': nu, 'ep': True, 'rows': rows, 'min_len': pipes.loss(spec) + 2,
+                     'form': None, 'degenerate': False, 'systematic': True}
+                c['rows_lab'] = c['rows']
+                c['fit_ep'] = rng.random() < 0.6
+                c['call'] = rng.choice([None, None, True, False])
+                c['relift'] = rng.random() < 0.6
+                c['data_form'] = None
+                c['lifted'] = False
+                c['inp'] = rng.random() < 0.4
+                c['form'] = rng.choice([1, 2])
+                out.append(c)
+    return out
 
 
 def build(c, K=None, rng=None, contractive=False):
@@ -587,6 +626,13 @@ def run(ctx):
             if w:
                 ctx.fail(w, fc, tags)
 
+    # the same oracle over pipelines with pre-processors / opaque kinds (the exact model above is algebraic only)
+    extra = systematic_float_cases(ctx.rng) + [gen(ctx, float_data=True) for _ in range(ctx.n(25, 400))]
+    for fc in extra:
+        ctx.count('float oracle:' + ('systematic pre-processor placement' if fc.get('systematic') else 'random, all kinds'))
+        w, tags = oracle(fc, ctx.rng)
+        if w:
+            ctx.fail(w, fc, tags)
     sd = [scripted_divergence_case(ctx.rng) for _ in range(ctx.n(30, 400))]
     for (line, case, got, clean, eps, marks), rep in zip(sd, drv.ask([x[0] for x in sd])):
         ctx.count('scripted divergence:' + ('relift' if case['relift'] else 'no-relift') + ('/lifted' if case['lifted'] else ''))
